@@ -308,8 +308,22 @@ def coq_eval_values(name, header, exprs, shard=250, timeout=1200):
     return res, errs
 
 def hexN(bs):
-    """bytes -> Coq term of type list N via the hex decoder of Lib/Hex.v: (unhex "0a1b")"""
-    return '(unhex "%s")' % bytes(bs).hex()
+    """bytes -> Coq term of type list N via the hex decoder of Lib/Hex.v: (unhex "0a1b");
+    long constant runs are printed as (repeat b (N.to_nat n)) so that megabyte payloads stay small"""
+    bs = bytes(bs)
+    if len(bs) < 4096: return '(unhex "%s")' % bs.hex()
+    parts = []; i = 0; lit = bytearray()
+    while i < len(bs):
+        j = i
+        while j < len(bs) and bs[j] == bs[i]: j += 1
+        if j - i >= 256:
+            if lit: parts.append('unhex "%s"' % bytes(lit).hex()); lit = bytearray()
+            parts.append('repeat %d (N.to_nat %d)' % (bs[i], j - i))
+        else: lit += bs[i:j]
+        i = j
+    if lit: parts.append('unhex "%s"' % bytes(lit).hex())
+    return '(' + ' ++ '.join(parts) + ')%list'
+
 
 def finding_known(f, known):
     for k in known:
@@ -344,8 +358,16 @@ def finish(ev, prop, findings, broken):
     ev.write()
     return rc
 
+def coqchk(prop, timeout=3000):
+    """independent re-check of Props/<prop>.vo and everything it depends on; -> (ok, axioms listed, log tail)"""
+    rc, out = run(['coqchk', '-o', '-silent', '-Q', '.', 'FB', 'FB.Props.%s' % prop], cwd=COQ, timeout=timeout, mem_gb=12)
+    m = re.search(r'\* Axioms:\s*(.*?)(?:\n\s*\*|\Z)', out, flags=re.S)
+    axioms = ' '.join(m.group(1).split()) if m else None
+    return rc == 0, axioms, out[-1500:]
+
 def std_audit(ev, prop, broken, allow_axioms=()):
-    """Coq build + Props audit + hygiene; fills evidence; appends to broken. -> audit dict"""
+    """Coq build + Props audit + hygiene; fills evidence; appends to broken. -> audit dict
+    In the thorough tier the cone is additionally re-checked with coqchk."""
     audit = props_audit(prop, allow_axioms)
     ev.cov['obligations'] = audit['obligations']
     ev.cov['discharged'] = audit['discharged']
@@ -363,4 +385,12 @@ def std_audit(ev, prop, broken, allow_axioms=()):
                        'site': list(es[:2]) if es else None, 'message': es[3] if es else audit['log'][-1500:],
                        'disallowed_axioms': audit.get('disallowed_axioms'),
                        'missing_print_assumptions': audit.get('missing_print_assumptions')})
+    elif ev.tier == 'thorough':
+        ok, axioms, tail = coqchk(prop)
+        ev.cov['coqchk'] = {'ok': ok, 'axioms': axioms}
+        ev.cov['obligations'] += 1
+        if ok and (axioms is None or '<none>' in axioms or all(a in allow_axioms for a in axioms.split())):
+            ev.cov['discharged'] += 1
+        else:
+            broken.append({'kind': 'coqchk', 'log': tail, 'axioms': axioms})
     return audit
